@@ -67,7 +67,7 @@ CLAIMED = {
   "DESIGN.md §4 C32"),
  "C18": (
   "Deductive proof (64-bit bit-vector arithmetic, exact) of the allocation arithmetic of Stor: Alloc returns offset = new size - n, i.e. the window [old size', old size'+n) of the atomically advanced size counter, never straddling a chunk boundary (when the advance would straddle, extend() moves the counter to the start of the next chunk and Alloc retries), the returned slice has exactly len = cap = n and starts at chunk[offset & (chunksize-1)] of chunk offset>>shift; Data/offsetToChunk proved against those definitions incl. bounds; extend keeps previously published chunks and publishes one fresh chunk; the representation invariant (chunksize = 2^shift, chunks value is a [][]byte whose entries have chunksize bytes, size within mapped chunks) is preserved.",
-  "sync/atomic operations are modelled as sequential steps with their documented effects (assumed library contracts); each Alloc is verified as if it ran alone, so the concurrent half of the property (distinct Add results => disjoint windows) rests on the proved window post-condition plus atomicity of Uint64.Add, argued not machine-checked; the retry loop is unrolled 3 times with an unwinding obligation under a sequential schedule. storage.Get is an assumed interface contract (fresh chunk of the configured size). Bounds assumed: shift < 40, chunk count < 999999. Memory-mapped files and FlushTo/Close not covered.",
+  "sync/atomic operations are modelled as sequential steps with their documented effects (assumed library contracts); each Alloc is verified as if it ran alone; the concurrent half of the property is carried by machine-checked interference (guarantee) clauses that are obliged across EVERY atomic write of Alloc and extend - allocChunk moves by at most one, a chunk is published only after it is in the table and without touching size, size is only rewound beyond every published chunk, the table only grows - while the step from these guarantees plus atomicity of Uint64.Add (distinct Add results => disjoint windows) to 'no two concurrent allocations overlap' is argued by hand, not machine-checked; the retry loop is unrolled 3 times with an unwinding obligation under a sequential schedule. storage.Get is an assumed interface contract (fresh chunk of the configured size). Bounds assumed: shift < 40, chunk count < 999999. Memory-mapped files and FlushTo/Close not covered.",
   "DESIGN.md §4 C18"),
 }
 
